@@ -82,6 +82,9 @@ func genPacketSpec(t *core.Tape, maxPayload int) *pktSpec {
 		if t.Chance(1, 12) {
 			n = 0
 		}
+		if t.Chance(1, 20) {
+			n = 15 + t.Intn(30) // many elements: whatever an implementation does "from N elements on"
+		}
 		used := map[uint8]bool{}
 		for i := 0; i < n; i++ {
 			id := uint8(1 + t.Intn(255))
